@@ -25,17 +25,17 @@ META = {
                 tech='rotation-word abstract evaluation, writer/reader composition over polynomial normal forms (no evaluation, no solver), option-threading dataflow, parity analysis'),
     'C06': dict(text=GEN % 'lift-multiply-project and sandwich routes, operand integrity in the array branches, pose-left/point-right operand roles of every @, the unit-dual-quaternion route composed in the non-commutative quaternion algebra equals r p r~ + t, no hidden state in the classes involved (R16, R22, R9, R2, R1)', sec='4 C06',
                 tech='routing patterns over resolved calls, reaching-definition check of operands'),
-    'C07': dict(text=GEN % 'predicate atoms (R4), validation dominates every store into data (R5), constructors define state on every exit (R3), no silent None (R2)', sec='4 C07',
+    'C07': dict(text=GEN % 'predicate atoms (R4), validation dominates every store into data (R5), constructors define state on every exit (R3), dual-mode transl/transl2 calls reached only with a vector argument (R20), no silent None (R2)', sec='4 C07',
                 tech='pattern-matched predicate atoms, must-pass-through dataflow on the CFG, typestate of constructors'),
-    'C08': dict(text='static analysis: the finite operator x class x class table (10 operators, 21 kinds) is enumerated completely and each cell is decided by abstract interpretation of the resolved dunder bodies over the class-kind lattice, against the documented table; cells that depend on numeric shape tests are reported as undecided. Plus R2/R1/R7 over every binary dunder.', sec='4 C08',
+    'C08': dict(text='static analysis: the finite operator x class x class table (10 operators, 21 kinds) is enumerated completely and each cell is decided by abstract interpretation of the resolved dunder bodies over the class-kind lattice, against the documented table; cells that depend on numeric shape tests are reported as undecided. Plus R6d (every value return of the pose x array branch is guarded by the pose dimension, which is what rejects coefficient arrays forwarded by unguarded reflected operators) and R2/R1/R7 over every binary dunder.', sec='4 C08',
                 tech='abstract interpretation of operator dispatch (MRO, reflected methods, three-valued isinstance) over class kinds; exhaustive table'),
-    'C09': dict(text=GEN % 'four-case broadcasting structure of the two helpers, every vectorised operator reaches a helper, length guards and element kinds in per-value accessors, branch agreement, comparison/arithmetic operators return the helper result (R7, R8)', sec='4 C09',
+    'C09': dict(text=GEN % 'four-case broadcasting structure of the two helpers, every vectorised operator reaches a helper, length guards and element kinds in per-value accessors, branch agreement, comparison/arithmetic operators return the helper result, helper calls receive (left, right) in order (R7o), unit conversion reaches scalar and vector motion parameters alike (R10u) (R7, R8)', sec='4 C09',
                 tech='guard-fact (must) dataflow on the CFG, element-kind abstract domain, call-graph reachability'),
     'C10': dict(text='static analysis: list equivalence by delegation -- index/slice delegate to list or slice.indices, class-equality and single-value guards dominate every list mutation, no list primitive overridden below UserList, Empty/Alloc/pop shapes; with CPython list/UserList trusted this implies equality with a Python list for every operation history.', sec='4 C10',
                 tech='dominance (must-fact) analysis of guards before mutations, who-defines check over the MRO, delegation patterns'),
     'C11': dict(text=GEN % 'range guard on every value path, routing, shortest-arc block ordering, endpoint returns, norm-preserving return forms, linear translation form, the shortest test on every path to the angle, shape typestate of the branches (R14, R16, R20, R2)', sec='4 C11',
                 tech='must-pass-through and ordering analysis on the CFG, return-form classification'),
-    'C12': dict(text=GEN % 'product / conjugate / matrix / rate / dual-product term tables, power fold shape, sign dependence of the quaternion logarithm (R16, R15, R17)', sec='4 C12',
+    'C12': dict(text=GEN % 'product / conjugate / matrix / rate / dual-product term tables, power fold shape, sign dependence of the quaternion logarithm, operand order of the broadcasting helper calls (R16, R15, R17, R7o)', sec='4 C12',
                 tech='polynomial/term-table normalisation of literal matrices and vector expressions'),
     'C13': dict(text=GEN % 'skew/vex/skewa/vexa writer-reader tables, adjoint/Jacobian blocks, differential-motion group words, dtype source of allocated results (R16, R1, R11a)', sec='4 C13',
                 tech='term tables, group-word abstract evaluation (inverse/transposition/product order)'),
